@@ -289,6 +289,8 @@ RULES = [
 
 from . import shared
 RULES = RULES + shared.bundle('C07', ['gate', 'restart', 'driver', 'values', 'stride', 'maxpd', 'norm'], ['product', 'details', 'kernel'])
+from .. import refs as _refs
+RULES = RULES + [_refs.ref_rule('C07')]
 
 
 def run(tier="quick", replay=None):
